@@ -412,3 +412,105 @@ func verifHarness_C03_udp_sessions() {
 	g.Stop()
 	verifAssert(false, "witness")
 }
+
+// a dialled UDP socket (its own connection, not a peer session) that has
+// received datagrams — so its read loop has ended on EAGAIN at least once — is
+// closed by the application, by its read deadline, or by Close: the close
+// notification reports that cause, not a left-over from reading.
+func verifHarness_C03_udp_dialed_close_cause() {
+	verifBound("preemptions", 1)
+	vkReset()
+	MaxOpenFiles = 32
+	g := NewEngine(Config{NPoller: 1, ReadBufferSize: 8})
+	var causes []error
+	opens, datagrams := 0, 0
+	g.OnOpen(func(c *Conn) { opens++ })
+	g.OnData(func(c *Conn, data []byte) { datagrams++ })
+	g.OnClose(func(c *Conn, err error) { causes = append(causes, err) })
+	verifSched(true, 1)
+	if err := g.Start(); err != nil {
+		verifFail("engine-start-failed", "")
+		return
+	}
+	f := vk.newFd(vkSockDgram)
+	c := &Conn{fd: f.fd, typ: ConnTypeUDPClientFromDial}
+	c.connUDP = &udpConn{parent: c}
+	if err := g.pollers[0].addConn(c); err != nil {
+		verifFail("addconn-failed", "")
+		return
+	}
+	f.peerDatagram([]byte("hi"), &syscall.SockaddrInet4{Port: 9, Addr: [4]byte{10, 0, 0, 9}})
+	verifJoin()
+	verifAssertD(datagrams == 1, "datagram-delivered", "udp-dialed")
+	how := verifChoose("closed_by", 3)
+	switch how {
+	case 0:
+		_ = c.CloseWithError(verifErrA)
+	case 1:
+		_ = c.Close()
+	case 2:
+		_ = c.SetReadDeadline(time.Unix(0, verifNow()).Add(time.Second))
+		for i := 0; i < verifTimerCount(); i++ {
+			if verifTimerArmed(i) {
+				verifFireTimer(i)
+			}
+		}
+	}
+	verifJoin()
+	verifAssertD(len(causes) == 1, "exactly-one-close-notification", "udp-dialed")
+	if len(causes) == 1 {
+		switch how {
+		case 0:
+			verifAssertD(errors.Is(causes[0], verifErrA), "close-error-is-first-cause", "udp-dialed/application-error")
+		case 1:
+			verifAssertD(!errors.Is(causes[0], syscall.EAGAIN), "close-error-is-first-cause", "udp-dialed/plain-close")
+		case 2:
+			verifAssertD(errors.Is(causes[0], errReadTimeout), "close-error-is-first-cause", "udp-dialed/read-deadline")
+		}
+	}
+	g.Stop()
+	verifAssert(false, "witness")
+}
+
+// DialAsync whose registration with the poller fails (epoll_ctl ADD refused):
+// the failure is reported ONCE — by the returned error — the callback is not
+// invoked on top of it, no close notification is delivered for a connection
+// that never opened, and the engine can still be stopped.
+func verifHarness_C03_dial_registration_failure() {
+	verifBound("preemptions", 1)
+	vkReset()
+	MaxOpenFiles = 32
+	mode := verifChoose("mode", 3)
+	g := NewEngine(verifEngineConf(mode))
+	opens, closes := 0, 0
+	g.OnOpen(func(c *Conn) { opens++ })
+	g.OnClose(func(c *Conn, err error) { closes++ })
+	verifSched(true, 1)
+	if err := g.Start(); err != nil {
+		verifFail("engine-start-failed", "")
+		return
+	}
+	vk.onNewSocket = func(f *vkFd) { vk.failAdd[f.fd] = true }
+	calls := 0
+	timeout := time.Duration(0)
+	if verifChoose("dial_timeout", 2) == 1 {
+		timeout = time.Second
+	}
+	err := g.DialAsyncTimeout("unix", "/verif.sock", timeout, func(c *Conn, err error) { calls++ })
+	verifJoin()
+	reports := calls
+	if err != nil {
+		reports++
+	}
+	verifAssertD(reports == 1, "dial-outcome-reported-exactly-once", "registration-failure")
+	verifAssertD(closes == 0 && opens == 0, "no-close-notification-without-open", "dial-registration-failure")
+	for _, f := range vk.fds {
+		if f != nil && f.kind == vkSockStream {
+			verifAssertD(!f.open, "every-descriptor-released", "dial-registration-failure")
+		}
+	}
+	verifStepBudget(400000)
+	g.Stop()
+	verifStepBudgetEnd()
+	verifAssert(false, "witness")
+}
